@@ -1,37 +1,217 @@
-"""translator items for C04 (origin convention): fttools.fftrange / pad2d / crop_center, psf.centroid,
-plus structural facts about make_xy_grid, forward_ft_unit, Slices and Wavefront.pad2d/crop."""
+"""translator items for C04 (origin convention).
+
+Every item TRANSLATES a piece of the current source into a Lean term (never compares source text):
+
+  fttools.fftrange                 -> fftrangeLo / fftrangeHi
+  fttools.pad2d                    -> padBefore / padAfter (np.pad branch), padSliceLo / padSliceHi (constant branch),
+                                      padOutLen (default ceil(n*Q)), padIntShape0/1 (integer out_shape)
+  fttools.crop_center              -> cropLo / cropHi, cropIntShape0/1 (integer out_shape)
+  psf.centroid                     -> centroidRef, centroidSpatialElem (dx*(com-c), zip order), centroidPixelsElem
+  coordinates.make_xy_grid         -> xyGridElem, gridX / gridY (meshgrid route), vecX / vecY (grid=False),
+                                      xyScalarShape0/1 (scalar shape), xyDxOfDiameter
+  fttools.forward_ft_unit          -> ftUnitNum shift n i, composed of the NumPy helpers below
+  propagation.focus / unfocus      -> focusPre / focusPost / unfocusPre / unfocusPost (roll amounts around the FFT)
+  numpy.fft fftfreq/fftshift/ifftshift (NumPy's own _helper.py) -> npFftfreqSplit / P1Lo / P2Lo, npFftshiftBy, npIfftshiftBy
+  RichData.x / .y getters          -> richX / richY  (which return value of make_xy_grid is cached where)
+  RichData.slices                  -> slicesXVec / slicesYVec (x[0], y[..., 0] and which is passed as x= / y=)
+  Slices.__init__                  -> slicesCentreY / slicesCentreX  (np.argmin(abs(v)) -> `am v len`)
+  Slices.x / Slices.y              -> sliceXTwo / sliceXOne / sliceYTwo / sliceYOne (+ ...Coord)
+  Wavefront.pad2d / Wavefront.crop -> three-valued facts: every parameter of the delegated call is bound to the
+                                      like-named argument (keyword or positional spelling is irrelevant)
+
+A source shape outside what is understood raises Untranslatable: the item falls back to the hand model, is recorded
+as `untranslatable` (TIE-DEGRADED, widened sweep); it never produces a failing theorem by itself.
+"""
 import ast
-from pyexpr2lean import (Gen, Tr, Untranslatable, load, get_def, find_assign, find_returns, elementwise,
-                         comp_parts, find_calls, call_arg)
+import importlib.util
+import os
+from pyexpr2lean import (Gen, Tr, Untranslatable, load, get_def, find_assign, find_assigns, find_returns, elementwise,
+                         comp_parts, find_calls)
 
 M = 'Model.C04'
 
 
+# ------------------------------------------------------------------------------------------------
+# small helpers (kept here: shared files are not edited)
+# ------------------------------------------------------------------------------------------------
+def params_of(fn, skip_self=False):
+    names = [a.arg for a in fn.args.posonlyargs + fn.args.args]
+    if skip_self and names and names[0] == 'self':
+        names = names[1:]
+    return names, [a.arg for a in fn.args.kwonlyargs]
+
+
+def bind_call(call, fn, skip_self=False):
+    """{parameter name: argument node} of `call` against the signature of FunctionDef `fn`
+    (positional and keyword spellings give the same binding)"""
+    pos, kwonly = params_of(fn, skip_self)
+    out = {}
+    if any(isinstance(a, ast.Starred) for a in call.args) or any(k.arg is None for k in call.keywords):
+        raise Untranslatable('star-args in call')
+    if len(call.args) > len(pos):
+        raise Untranslatable('too many positional arguments')
+    for p, a in zip(pos, call.args):
+        out[p] = a
+    for k in call.keywords:
+        if k.arg not in pos + kwonly or k.arg in out:
+            raise Untranslatable(f'keyword {k.arg}')
+        out[k.arg] = k.value
+    return out
+
+
+def last_attr(e):
+    """'np.fft.fftshift' -> 'fftshift'"""
+    return ast.unparse(e).split('.')[-1]
+
+
+def straight_env(fn, env, mode='int'):
+    """extend env with the top-level `name = expr` statements of fn (in order) that translate"""
+    env = dict(env)
+    for st in fn.body:
+        if isinstance(st, ast.Assign) and len(st.targets) == 1 and isinstance(st.targets[0], ast.Name):
+            try:
+                env[st.targets[0].id] = Tr(env, mode).expr(st.value)
+            except Untranslatable:
+                env.pop(st.targets[0].id, None)
+    return env
+
+
+def is_abs_of(e, names):
+    """abs(v) / np.abs(v) / np.absolute(v) / np.fabs(v) -> the text of v when it is one of names"""
+    if isinstance(e, ast.Call) and len(e.args) == 1 and not e.keywords and last_attr(e.func) in ('abs', 'absolute', 'fabs'):
+        v = ast.unparse(e.args[0])
+        if v in names:
+            return v
+    return None
+
+
+def argmin_abs_of(e, names):
+    """np.argmin(abs(v)) / argmin(np.abs(v)) / abs(v).argmin() (any module prefix) -> v"""
+    if not isinstance(e, ast.Call) or e.keywords:
+        return None
+    if len(e.args) == 1 and last_attr(e.func) == 'argmin':
+        return is_abs_of(e.args[0], names)
+    if len(e.args) == 0 and isinstance(e.func, ast.Attribute) and e.func.attr == 'argmin':
+        return is_abs_of(e.func.value, names)
+    return None
+
+
+def index_term(sub, fixed, free='k', ndim=2):
+    """`base[i0, i1]` with every component one of: a name in `fixed` (-> its term), an int literal, `:` (the free
+    index), `lo:` (lo + free), `...` (fills up with free).  Exactly one free component.  Returns the list of terms."""
+    idx = sub.slice
+    comps = list(idx.elts) if isinstance(idx, ast.Tuple) else [idx]
+    if any(isinstance(c, ast.Constant) and c.value is Ellipsis for c in comps):
+        k = [i for i, c in enumerate(comps) if isinstance(c, ast.Constant) and c.value is Ellipsis]
+        if len(k) != 1:
+            raise Untranslatable('two ellipses')
+        fill = [ast.Slice(lower=None, upper=None, step=None)] * (ndim - (len(comps) - 1))
+        comps = comps[:k[0]] + fill + comps[k[0] + 1:]
+    while len(comps) < ndim:
+        comps.append(ast.Slice(lower=None, upper=None, step=None))
+    if len(comps) != ndim:
+        raise Untranslatable('index rank')
+    out, nfree = [], 0
+    for c in comps:
+        if isinstance(c, ast.Slice):
+            if c.upper is not None or c.step is not None:
+                raise Untranslatable('slice with upper bound / step')
+            nfree += 1
+            if c.lower is None:
+                out.append(free)
+            else:
+                key = ast.unparse(c.lower)
+                if key not in fixed:
+                    raise Untranslatable(f'slice start {key}')
+                out.append(f'({fixed[key]} + {free})')
+        elif isinstance(c, ast.Constant) and isinstance(c.value, int) and not isinstance(c.value, bool):
+            out.append(f'({c.value} : Int)' if c.value >= 0 else f'(-{-c.value} : Int)')
+        else:
+            key = ast.unparse(c)
+            if key not in fixed:
+                raise Untranslatable(f'index {key}')
+            out.append(fixed[key])
+    if nfree != 1:
+        raise Untranslatable('need exactly one free index')
+    return out
+
+
+def branch_on(fn, flag_texts):
+    """the `if <flag>:` (or `if not <flag>` / `if <flag> is True` ...) statement of fn; returns (true_body, false_body)
+    where *_body are statement lists (the statements following the `if` are appended to a branch that does not return)"""
+    for k, st in enumerate(fn.body):
+        if not isinstance(st, ast.If):
+            continue
+        t = st.test
+        neg = False
+        if isinstance(t, ast.UnaryOp) and isinstance(t.op, ast.Not):
+            neg, t = True, t.operand
+        if isinstance(t, ast.Compare) and len(t.ops) == 1 and isinstance(t.comparators[0], ast.Constant) \
+                and isinstance(t.comparators[0].value, bool) and isinstance(t.ops[0], (ast.Is, ast.Eq, ast.IsNot, ast.NotEq)):
+            if (t.comparators[0].value is False) != isinstance(t.ops[0], (ast.IsNot, ast.NotEq)):
+                neg = not neg
+            t = t.left
+        if ast.unparse(t) not in flag_texts:
+            continue
+        rest = fn.body[k + 1:]
+        a = list(st.body) + ([] if _returns(st.body) else rest)
+        b = list(st.orelse) + ([] if _returns(st.orelse) else rest)
+        return (b, a) if neg else (a, b)
+    raise Untranslatable(f'no branch on {flag_texts}')
+
+
+def _returns(stmts):
+    return bool(stmts) and isinstance(stmts[-1], ast.Return)
+
+
+def the_return(stmts):
+    rs = [s for s in stmts if isinstance(s, ast.Return)]
+    if len(rs) != 1 or rs[0].value is None:
+        raise Untranslatable('branch without a single return')
+    return rs[0].value
+
+
+# ------------------------------------------------------------------------------------------------
 def generate(repo):
-    g = Gen('C04', imports=['PrysmVerif.PyPrelude', 'PrysmVerif.Model.C04'])
+    g = Gen('C04', imports=['PrysmVerif.PyPrelude', 'PrysmVerif.Model.C04'], header='set_option linter.unusedVariables false')
     ft, _ = load(repo, 'prysm/fttools.py')
     psf, _ = load(repo, 'prysm/psf.py')
     co, _ = load(repo, 'prysm/coordinates.py')
     rd, _ = load(repo, 'prysm/_richdata.py')
     pr, _ = load(repo, 'prysm/propagation.py')
 
-    # ---- fftrange(n) = arange(lo, hi)
+    # ---- fftrange(n) = arange(lo, hi)      (also: arange(n) - c ; locals are resolved)
     def fftrange():
         fn = get_def(ft, 'fftrange')
+        env = straight_env(fn, {'n': 'n'})
         (ret,) = find_returns(fn)
-        assert ast.unparse(ret.func).endswith('arange')
-        tr = Tr({'n': 'n'})
-        return (f'def fftrangeLo (n : Int) : Int := {tr.expr(ret.args[0])}\n'
-                f'def fftrangeHi (n : Int) : Int := {tr.expr(ret.args[1])}')
+        tr = Tr(env)
+        if isinstance(ret, ast.BinOp) and isinstance(ret.op, (ast.Sub, ast.Add)) and isinstance(ret.left, ast.Call) \
+                and last_attr(ret.left.func) == 'arange' and len(ret.left.args) == 1:
+            c = tr.expr(ret.right)
+            if isinstance(ret.op, ast.Add):
+                c = f'(-{c})'
+            return (f'def fftrangeLo (n : Int) : Int := (-{c})\n'
+                    f'def fftrangeHi (n : Int) : Int := ({tr.expr(ret.left.args[0])} - {c})')
+        if not (isinstance(ret, ast.Call) and last_attr(ret.func) == 'arange'):
+            raise Untranslatable('fftrange does not return an arange')
+        b = {k.arg: k.value for k in ret.keywords}
+        args = list(ret.args)
+        lo = args[0] if len(args) > 0 else b.get('start')
+        hi = args[1] if len(args) > 1 else b.get('stop')
+        if lo is None or hi is None or len(args) > 2 or 'step' in b:
+            raise Untranslatable('arange form')
+        return (f'def fftrangeLo (n : Int) : Int := {tr.expr(lo)}\n'
+                f'def fftrangeHi (n : Int) : Int := {tr.expr(hi)}')
     g.item('fftrange', 'prysm/fttools.py:fftrange', lambda: get_def(ft, 'fftrange'), fftrange,
            f'def fftrangeLo (n : Int) : Int := {M}.fftrangeLo n\ndef fftrangeHi (n : Int) : Int := {M}.fftrangeHi n')
 
     # ---- pad2d: element-wise reading of shape_diff / before / pad_shape / slcs
     def pad_env(fn):
         elem = {'in_shape': 'n', 'out_shape': 'N', 'array.shape': 'n'}
-        # resolve list-valued locals that are comprehensions over the known per-axis lists, to a fixpoint
-        names = ['shape_diff', 'before', 'dbytwo', 'divby2']
-        for _ in range(3):
+        # every list-valued local that is a comprehension over the known per-axis lists, to a fixpoint
+        names = [t.id for st in ast.walk(fn) if isinstance(st, ast.Assign) for t in st.targets if isinstance(t, ast.Name)]
+        for _ in range(4):
             for nm in names:
                 if nm in elem:
                     continue
@@ -44,7 +224,18 @@ def generate(repo):
     def pad_before_after():
         fn = get_def(ft, 'pad2d')
         elem = pad_env(fn)
-        # the np.pad branch: pad_shape gets one (before, after) tuple per axis, appended in a for loop
+        if 'pad_shape' in elem:
+            raise Untranslatable('pad_shape is a comprehension of scalars')
+        # form 1: pad_shape = [(b, a) for ... in zip(...)]
+        try:
+            elt, binds = comp_parts(find_assign(fn, 'pad_shape', which=-1))
+            if isinstance(elt, ast.Tuple) and len(elt.elts) == 2:
+                tr = Tr({k: elem[v] for k, v in binds.items()})
+                return (f'def padBefore (n N : Int) : Int := {tr.expr(elt.elts[0])}\n'
+                        f'def padAfter (n N : Int) : Int := {tr.expr(elt.elts[1])}')
+        except Untranslatable:
+            pass
+        # form 2: the np.pad branch: pad_shape gets one (before, after) tuple per axis, appended in a for loop
         loops = [n for n in ast.walk(fn) if isinstance(n, ast.For)
                  and any(isinstance(c, ast.Call) and ast.unparse(c.func) == 'pad_shape.append' for c in ast.walk(n))]
         if len(loops) != 1:
@@ -81,49 +272,86 @@ def generate(repo):
     g.item('pad2d.pad_shape', 'prysm/fttools.py:pad2d', lambda: get_def(ft, 'pad2d'), pad_before_after,
            f'def padBefore (n N : Int) : Int := {M}.padBefore n N\ndef padAfter (n N : Int) : Int := {M}.padAfter n N')
 
+    def slice_call(elt):
+        if not (isinstance(elt, ast.Call) and ast.unparse(elt.func) == 'slice' and not elt.keywords and len(elt.args) == 2):
+            raise Untranslatable('slcs element is not slice(lo, hi)')
+        return elt.args
+
     def pad_slice():
         fn = get_def(ft, 'pad2d')
         elem = pad_env(fn)
-        sl = find_assign(fn, 'slcs')
-        elt, binds = comp_parts(sl)
-        assert isinstance(elt, ast.Call) and ast.unparse(elt.func) == 'slice' and len(elt.args) == 2
-        env = {k: elem[v] for k, v in binds.items()}
-        tr = Tr(env)
-        return (f'def padSliceLo (n N : Int) : Int := {tr.expr(elt.args[0])}\n'
-                f'def padSliceHi (n N : Int) : Int := {tr.expr(elt.args[1])}')
+        elt, binds = comp_parts(find_assign(fn, 'slcs'))
+        lo, hi = slice_call(elt)
+        tr = Tr({k: elem[v] for k, v in binds.items()})
+        # the data is written with `out[slcs] = array`
+        if not any(isinstance(st, ast.Assign) and ast.unparse(st.targets[0]) == 'out[slcs]' and ast.unparse(st.value) == 'array'
+                   for st in ast.walk(fn)):
+            raise Untranslatable('no `out[slcs] = array`')
+        return (f'def padSliceLo (n N : Int) : Int := {tr.expr(lo)}\n'
+                f'def padSliceHi (n N : Int) : Int := {tr.expr(hi)}')
     g.item('pad2d.slcs', 'prysm/fttools.py:pad2d', lambda: get_def(ft, 'pad2d'), pad_slice,
            f'def padSliceLo (n N : Int) : Int := {M}.padBefore n N\ndef padSliceHi (n N : Int) : Int := {M}.padBefore n N + n')
 
     def pad_outlen():
         fn = get_def(ft, 'pad2d')
-        cands = [v for v in [find_assign(fn, 'out_shape', which=0)]]
-        term = elementwise(cands[0], {'in_shape': 'n'}, mode='rat', scalars={'Q': 'Q'})
+        term = elementwise(find_assign(fn, 'out_shape', which=0), {'in_shape': 'n', 'array.shape': 'n'}, mode='rat',
+                           scalars={'Q': 'Q'})
         return f'def padOutLen (n Q : Rat) : Rat := {term}'
     g.item('pad2d.out_shape', 'prysm/fttools.py:pad2d', lambda: get_def(ft, 'pad2d'), pad_outlen,
            f'def padOutLen (n Q : Rat) : Rat := {M}.padOutLen n Q')
+
+    def int_shape(fn, prefix):
+        """the per-axis target lengths built from an integer `out_shape`  (`[out_shape]*ndim`, `(out_shape, out_shape)`)"""
+        for st in ast.walk(fn):
+            if isinstance(st, ast.If) and isinstance(st.test, ast.Call) and ast.unparse(st.test.func) == 'isinstance' \
+                    and ast.unparse(st.test.args[0]) == 'out_shape':
+                (asg,) = [s for s in st.body if isinstance(s, ast.Assign) and ast.unparse(s.targets[0]) == 'out_shape']
+                v = asg.value
+                tr = Tr({'out_shape': 'N'})
+                if isinstance(v, ast.BinOp) and isinstance(v.op, ast.Mult):
+                    seq = v.left if isinstance(v.left, (ast.List, ast.Tuple)) else v.right
+                    if not (isinstance(seq, (ast.List, ast.Tuple)) and len(seq.elts) == 1):
+                        raise Untranslatable('integer out_shape broadcast')
+                    terms = [tr.expr(seq.elts[0])] * 2
+                elif isinstance(v, (ast.List, ast.Tuple)) and len(v.elts) == 2:
+                    terms = [tr.expr(e) for e in v.elts]
+                else:
+                    raise Untranslatable('integer out_shape broadcast')
+                return (f'def {prefix}0 (N : Int) : Int := {terms[0]}\n'
+                        f'def {prefix}1 (N : Int) : Int := {terms[1]}')
+        raise Untranslatable('no isinstance(out_shape, int) branch')
+    g.item('pad2d.int_out_shape', 'prysm/fttools.py:pad2d', lambda: get_def(ft, 'pad2d'),
+           lambda: int_shape(get_def(ft, 'pad2d'), 'padIntShape'),
+           'def padIntShape0 (N : Int) : Int := N\ndef padIntShape1 (N : Int) : Int := N')
 
     # ---- crop_center
     def crop():
         fn = get_def(ft, 'crop_center')
         elem = {'img.shape': 'n', 'out_shape': 'N'}
-        for nm in ('padding', 'left'):
-            try:
-                elem[nm] = elementwise(find_assign(fn, nm, which=-1), elem)
-            except Untranslatable:
-                if nm == 'left':
-                    raise
-        sl = find_assign(fn, 'slcs')
-        elt, binds = comp_parts(sl)
-        assert ast.unparse(elt.func) == 'slice' and len(elt.args) == 2
+        names = [t.id for st in ast.walk(fn) if isinstance(st, ast.Assign) for t in st.targets if isinstance(t, ast.Name)]
+        for _ in range(3):
+            for nm in names:
+                if nm in elem or nm == 'slcs':
+                    continue
+                try:
+                    elem[nm] = elementwise(find_assign(fn, nm, which=-1), elem)
+                except Untranslatable:
+                    pass
+        elt, binds = comp_parts(find_assign(fn, 'slcs'))
+        lo, hi = slice_call(elt)
         tr = Tr({k: elem[v] for k, v in binds.items()})
         (ret,) = find_returns(fn)
-        assert ast.unparse(ret) == 'img[slcs]'
-        return (f'def cropLo (n N : Int) : Int := {tr.expr(elt.args[0])}\n'
-                f'def cropHi (n N : Int) : Int := {tr.expr(elt.args[1])}')
+        if ast.unparse(ret) != 'img[slcs]':
+            raise Untranslatable('return is not img[slcs]')
+        return (f'def cropLo (n N : Int) : Int := {tr.expr(lo)}\n'
+                f'def cropHi (n N : Int) : Int := {tr.expr(hi)}')
     g.item('crop_center', 'prysm/fttools.py:crop_center', lambda: get_def(ft, 'crop_center'), crop,
            f'def cropLo (n N : Int) : Int := {M}.cropLeft n N\ndef cropHi (n N : Int) : Int := {M}.cropLeft n N + N')
+    g.item('crop_center.int_out_shape', 'prysm/fttools.py:crop_center', lambda: get_def(ft, 'crop_center'),
+           lambda: int_shape(get_def(ft, 'crop_center'), 'cropIntShape'),
+           'def cropIntShape0 (N : Int) : Int := N\ndef cropIntShape1 (N : Int) : Int := N')
 
-    # ---- psf.centroid reference index
+    # ---- psf.centroid: reference index and the returned expression of both units
     def centroid():
         fn = get_def(psf, 'centroid')
         term = elementwise(find_assign(fn, 'center'), {'data.shape': 'n'})
@@ -131,46 +359,404 @@ def generate(repo):
     g.item('centroid.center', 'prysm/psf.py:centroid', lambda: get_def(psf, 'centroid'), centroid,
            f'def centroidRef (n : Int) : Int := {M}.centroidRef n')
 
-    # ---- structural facts
+    def centroid_return():
+        fn = get_def(psf, 'centroid')
+        com = find_assign(fn, 'com')
+        if not (isinstance(com, ast.Call) and last_attr(com.func) == 'center_of_mass' and len(com.args) == 1
+                and ast.unparse(com.args[0]) == 'data' and not com.keywords):
+            raise Untranslatable('com is not center_of_mass(data)')
+        branch = None
+        for k, st in enumerate(fn.body):
+            if isinstance(st, ast.If) and isinstance(st.test, ast.Compare) and ast.unparse(st.test.left) == 'unit' \
+                    and len(st.test.ops) == 1 and isinstance(st.test.comparators[0], ast.Constant):
+                word, eq = st.test.comparators[0].value, isinstance(st.test.ops[0], ast.Eq)
+                if not isinstance(st.test.ops[0], (ast.Eq, ast.NotEq)) or word not in ('spatial', 'pixels'):
+                    raise Untranslatable('test on unit')
+                rest = fn.body[k + 1:]
+                a = list(st.body) + ([] if _returns(st.body) else rest)
+                b = list(st.orelse) + ([] if _returns(st.orelse) else rest)
+                body_is_spatial = (word == 'spatial') == eq
+                branch = (a, b) if body_is_spatial else (b, a)
+        if branch is None:
+            raise Untranslatable('no branch on unit')
+        spatial, pixels = the_return(branch[0]), the_return(branch[1])
+        # `center` is consumed lazily (generator): it must not be iterated before the return
+        cterm = '((centroidRef n : Int) : Rat)'
+        s_term = elementwise(spatial, {'com': 'com', 'center': cterm}, mode='rat', scalars={'dx': 'dx'})
+        if isinstance(pixels, ast.Name) and pixels.id == 'com':
+            p_term = 'com'
+        else:
+            p_term = elementwise(pixels, {'com': 'com', 'center': cterm}, mode='rat', scalars={'dx': 'dx'})
+        return (f'def centroidSpatialElem (dx com : Rat) (n : Int) : Rat := {s_term}\n'
+                f'def centroidPixelsElem (com : Rat) (n : Int) : Rat := {p_term}')
+    g.item('centroid.return', 'prysm/psf.py:centroid', lambda: get_def(psf, 'centroid'), centroid_return,
+           f'def centroidSpatialElem (dx com : Rat) (n : Int) : Rat := {M}.centroidSpatial dx com n\n'
+           'def centroidPixelsElem (com : Rat) (n : Int) : Rat := com')
+
+    # ---- make_xy_grid: symbolic reading of the whole body
     def xy_grid():
         fn = get_def(co, 'make_xy_grid')
-        for st in ast.walk(fn):
-            if isinstance(st, ast.Assign) and isinstance(st.targets[0], ast.Tuple) \
-                    and [ast.unparse(t) for t in st.targets[0].elts] == ['y', 'x']:
-                elt, binds = comp_parts(st.value)
+        pos, kwonly = params_of(fn)
+        if 'shape' not in pos + kwonly:
+            raise Untranslatable('no shape parameter')
+        out = []
+        # (a) scalar shape broadcast
+        sc = None
+        for st in fn.body:
+            if isinstance(st, ast.If) and 'isinstance(shape' in ast.unparse(st.test).replace(' ', ''):
+                (asg,) = [s for s in st.body if isinstance(s, ast.Assign) and ast.unparse(s.targets[0]) == 'shape']
+                if not (isinstance(asg.value, (ast.Tuple, ast.List)) and len(asg.value.elts) == 2):
+                    raise Untranslatable('scalar shape broadcast')
+                tr = Tr({'shape': 's'})
+                sc = [tr.expr(e) for e in asg.value.elts]
+        if sc is None:
+            raise Untranslatable('no scalar-shape branch')
+        out.append(f'def xyScalarShape0 (s : Int) : Int := {sc[0]}\ndef xyScalarShape1 (s : Int) : Int := {sc[1]}')
+        # (b) diameter -> dx
+        dterm = None
+        for st in fn.body:
+            if isinstance(st, ast.If) and ast.unparse(st.test).replace(' ', '') in ('diameter!=0', 'diameter', 'diameter>0'):
+                (asg,) = [s for s in st.body if isinstance(s, ast.Assign) and ast.unparse(s.targets[0]) == 'dx']
+                dterm = Tr({'diameter': 'd', 'max(shape)': '((max m n : Int) : Rat)', 'shape[0]': '((m : Int) : Rat)',
+                            'shape[1]': '((n : Int) : Rat)'}, mode='rat').expr(asg.value)
+        if dterm is None:
+            raise Untranslatable('no diameter branch')
+        out.append(f'def xyDxOfDiameter (d : Rat) (m n : Int) : Rat := {dterm}')
+        # (c) the vectors: `<t0>, <t1> = (<elt> for s in shape)`; k-th target is built from shape[k]
+        state = {}
+        elem_term = None
+        for st in fn.body:
+            if isinstance(st, ast.Assign) and isinstance(st.targets[0], ast.Tuple) and len(st.targets[0].elts) == 2 \
+                    and all(isinstance(t, ast.Name) for t in st.targets[0].elts):
+                try:
+                    elt, binds = comp_parts(st.value)
+                except Untranslatable:
+                    continue
+                if list(binds.values()) != ['shape']:
+                    raise Untranslatable('vectors are not built per element of shape')
                 s = list(binds)[0]
-                return binds[s] == 'shape' and isinstance(elt, ast.BinOp) and isinstance(elt.op, ast.Mult) \
-                    and ast.unparse(elt.left).startswith(f'fftrange({s}') and ast.unparse(elt.right) == 'dx'
-        return False
-    g.fact('xyGridIsFftrangeTimesDxInYXOrder', 'prysm/coordinates.py:make_xy_grid', xy_grid)
+                tr = Tr({s: 's', 'dx': 'dx'}, mode='rat',
+                        funcs={'fftrange': lambda args: f'(((fftrangeLo {args[0]} + i : Int)) : Rat)'})
+                elem_term = tr.expr(elt)
+                for k, t in enumerate(st.targets[0].elts):
+                    state[t.id] = ('vec', k)
+                break
+        if elem_term is None:
+            raise Untranslatable('no `y, x = (... for s in shape)`')
+        out.append(f'def xyGridElem (s i : Int) (dx : Rat) : Rat := {elem_term}')
+        # (d) grid=True: meshgrid; grid=False: vectors as they are
+        on, off = branch_on(fn, ('grid',))
 
+        def run(stmts, st0):
+            st_ = dict(st0)
+            for s_ in stmts:
+                if isinstance(s_, ast.Return):
+                    if not (isinstance(s_.value, ast.Tuple) and len(s_.value.elts) == 2):
+                        raise Untranslatable('return is not a pair')
+                    return [st_[ast.unparse(e)] for e in s_.value.elts]
+                if isinstance(s_, ast.Assign) and isinstance(s_.value, ast.Call) and last_attr(s_.value.func) == 'meshgrid':
+                    c = s_.value
+                    kw = {k.arg: ast.unparse(k.value) for k in c.keywords}
+                    if set(kw) - {'indexing'} or len(c.args) != 2 or not isinstance(s_.targets[0], ast.Tuple):
+                        raise Untranslatable('meshgrid form')
+                    ij = kw.get('indexing', "'xy'") == "'ij'"
+                    a0, a1 = (st_[ast.unparse(a)] for a in c.args)
+                    if a0[0] != 'vec' or a1[0] != 'vec':
+                        raise Untranslatable('meshgrid of meshes')
+                    # numpy: indexing='xy': out0[i,j] = a0[j], out1[i,j] = a1[i];  'ij': out0[i,j] = a0[i], out1[i,j] = a1[j]
+                    t0, t1 = (t.id for t in s_.targets[0].elts)
+                    new = {t0: ('mesh', 'i' if ij else 'j', a0[1]), t1: ('mesh', 'j' if ij else 'i', a1[1])}
+                    st_.update(new)
+                    continue
+                raise Untranslatable(f'statement {ast.unparse(s_)[:40]}')
+            raise Untranslatable('no return')
+        length = {0: 'm', 1: 'n'}
+        r_on, r_off = run(on, state), run(off, state)
+        for nm, r in zip(('gridX', 'gridY'), r_on):
+            if r[0] != 'mesh':
+                raise Untranslatable('grid=True does not return meshes')
+            out.append(f'def {nm} (m n : Int) (dx : Rat) (i j : Int) : Rat := xyGridElem {length[r[2]]} {r[1]} dx')
+        for nm, r in zip(('vecX', 'vecY'), r_off):
+            if r[0] != 'vec':
+                raise Untranslatable('grid=False does not return vectors')
+            out.append(f'def {nm} (m n : Int) (dx : Rat) (k : Int) : Rat := xyGridElem {length[r[1]]} k dx')
+        return '\n'.join(out)
+    g.item('make_xy_grid', 'prysm/coordinates.py:make_xy_grid', lambda: get_def(co, 'make_xy_grid'), xy_grid,
+           'def xyScalarShape0 (s : Int) : Int := s\ndef xyScalarShape1 (s : Int) : Int := s\n'
+           f'def xyDxOfDiameter (d : Rat) (m n : Int) : Rat := {M}.dxOfDiameter d m n\n'
+           f'def xyGridElem (s i : Int) (dx : Rat) : Rat := {M}.gridElem s i dx\n'
+           f'def gridX (m n : Int) (dx : Rat) (i j : Int) : Rat := {M}.gridX m n dx i j\n'
+           f'def gridY (m n : Int) (dx : Rat) (i j : Int) : Rat := {M}.gridY m n dx i j\n'
+           f'def vecX (m n : Int) (dx : Rat) (k : Int) : Rat := {M}.vecX m n dx k\n'
+           f'def vecY (m n : Int) (dx : Rat) (k : Int) : Rat := {M}.vecY m n dx k')
+
+    # ---- NumPy's own fftfreq / fftshift / ifftshift (numpy/fft/_helper.py of the interpreter that runs prysm)
+    def numpy_helpers():
+        spec = importlib.util.find_spec('numpy.fft._helper') or importlib.util.find_spec('numpy.fft.helper')
+        if spec is None or not spec.origin or not os.path.exists(spec.origin):
+            raise Untranslatable('numpy.fft._helper source not found')
+        mod = ast.parse(open(spec.origin).read())
+        ff = get_def(mod, 'fftfreq')
+        env = {'n': 'n'}
+        # N = (n-1)//2 + 1 ; p1 = arange(0, N) ; results[:N] = p1 ; p2 = arange(-(n//2), 0) ; results[N:] = p2
+        writes = {}
+        for st in ff.body:
+            if isinstance(st, ast.Assign) and isinstance(st.targets[0], ast.Name):
+                v = st.value
+                if isinstance(v, ast.Call) and last_attr(v.func) == 'arange' and len(v.args) == 2:
+                    env[st.targets[0].id] = ('arange', Tr({k: t for k, t in env.items() if isinstance(t, str)}).expr(v.args[0]))
+                else:
+                    try:
+                        env[st.targets[0].id] = Tr({k: t for k, t in env.items() if isinstance(t, str)}).expr(v)
+                    except Untranslatable:
+                        pass
+            elif isinstance(st, ast.Assign) and isinstance(st.targets[0], ast.Subscript) \
+                    and ast.unparse(st.targets[0].value) == 'results' and isinstance(st.targets[0].slice, ast.Slice):
+                sl = st.targets[0].slice
+                src = env.get(ast.unparse(st.value))
+                if not (isinstance(src, tuple) and src[0] == 'arange'):
+                    raise Untranslatable('results[...] = <not an arange>')
+                ints = {k: t for k, t in env.items() if isinstance(t, str)}
+                if sl.lower is None and sl.upper is not None:
+                    writes['head'] = (Tr(ints).expr(sl.upper), src[1])
+                elif sl.upper is None and sl.lower is not None:
+                    writes['tail'] = (Tr(ints).expr(sl.lower), src[1])
+                else:
+                    raise Untranslatable('results slice form')
+        if set(writes) != {'head', 'tail'} or writes['head'][0] != writes['tail'][0]:
+            raise Untranslatable('fftfreq: head/tail split not recognised')
+        (ret,) = find_returns(ff)
+        if not (isinstance(ret, ast.BinOp) and isinstance(ret.op, ast.Mult) and 'results' in (ast.unparse(ret.left), ast.unparse(ret.right))):
+            raise Untranslatable('fftfreq return')
+        out = [f'def npFftfreqSplit (n : Int) : Int := {writes["head"][0]}',
+               f'def npFftfreqP1Lo (n : Int) : Int := {writes["head"][1]}',
+               f'def npFftfreqP2Lo (n : Int) : Int := {writes["tail"][1]}']
+        for nm, lean in (('fftshift', 'npFftshiftBy'), ('ifftshift', 'npIfftshiftBy')):
+            fn = get_def(mod, nm)
+            (ret,) = find_returns(fn)
+            if not (isinstance(ret, ast.Call) and last_attr(ret.func) == 'roll' and ast.unparse(ret.args[1]) == 'shift'):
+                raise Untranslatable(f'{nm} does not return roll(x, shift, axes)')
+            term = elementwise(find_assign(fn, 'shift', which=0), {'x.shape': 'dim'})
+            out.append(f'def {lean} (dim : Int) : Int := {term}')
+        return '\n'.join(out)
+    g.item('numpy.fft.helpers', 'numpy/fft/_helper.py:fftfreq,fftshift,ifftshift', None, numpy_helpers,
+           f'def npFftfreqSplit (n : Int) : Int := {M}.npFftfreqSplit n\ndef npFftfreqP1Lo (n : Int) : Int := {M}.npFftfreqP1Lo\n'
+           f'def npFftfreqP2Lo (n : Int) : Int := {M}.npFftfreqP2Lo n\ndef npFftshiftBy (dim : Int) : Int := {M}.npFftshiftBy dim\n'
+           f'def npIfftshiftBy (dim : Int) : Int := {M}.npIfftshiftBy dim')
+
+    # ---- forward_ft_unit: unit = fftfreq(samples, dx); shift -> fftshift(unit) else unit
     def ft_unit():
         fn = get_def(ft, 'forward_ft_unit')
+        wrapper = get_def(ft, 'fftfreq')
         unit = find_assign(fn, 'unit')
-        ok1 = ast.unparse(unit) == 'fftfreq(samples, dx)'
-        rets = [ast.unparse(r) for r in find_returns(fn)]
-        return ok1 and rets == ['fft.fftshift(unit)', 'unit']
-    g.fact('ftUnitIsFftshiftOfFftfreq', 'prysm/fttools.py:forward_ft_unit', ft_unit)
+        if not (isinstance(unit, ast.Call) and last_attr(unit.func) == 'fftfreq'):
+            raise Untranslatable('unit is not fftfreq(...)')
+        b = bind_call(unit, wrapper)
+        if ast.unparse(b.get('n')) != 'samples' or ast.unparse(b.get('d')) != 'dx':
+            raise Untranslatable(f'fftfreq called with n={ast.unparse(b.get("n"))}, d={ast.unparse(b.get("d"))}')
+        # the wrapper itself hands (n, d) to the backend's fftfreq in that order
+        inner = [c for c in ast.walk(wrapper) if isinstance(c, ast.Call) and last_attr(c.func) == 'fftfreq']
+        if not inner or any([ast.unparse(a) for a in c.args] != ['n', 'd'] or c.keywords for c in inner):
+            raise Untranslatable('fttools.fftfreq does not forward (n, d)')
+        freq = f'({M}.fftfreqOf (npFftfreqSplit n) (npFftfreqP1Lo n) (npFftfreqP2Lo n)'
 
-    def slices():
-        fn = get_def(rd, 'Slices.__init__')
+        def vec(e):
+            if isinstance(e, ast.Name) and e.id == 'unit':
+                return f'{freq} i)'
+            if isinstance(e, ast.Call) and len(e.args) == 1 and not e.keywords and ast.unparse(e.args[0]) == 'unit':
+                by = {'fftshift': 'npFftshiftBy', 'ifftshift': 'npIfftshiftBy'}.get(last_attr(e.func))
+                if by:
+                    return f'{freq} ({M}.rollSrc n ({by} n) i))'
+            raise Untranslatable(f'returned vector {ast.unparse(e)}')
+        on, off = branch_on(fn, ('shift',))
+        return ('def ftUnitNum (shift : Bool) (n i : Int) : Int :=\n'
+                f'  if shift then {vec(the_return(on))} else {vec(the_return(off))}')
+    g.item('forward_ft_unit', 'prysm/fttools.py:forward_ft_unit', lambda: get_def(ft, 'forward_ft_unit'), ft_unit,
+           f'def ftUnitNum (shift : Bool) (n i : Int) : Int := {M}.ftUnitNumS shift n i')
+
+    # ---- propagation.focus / unfocus: roll amounts applied before and after the FFT (in terms of NumPy's translated constants)
+    def fft_route():
+        out = []
+        by = {'fftshift': 'npFftshiftBy', 'ifftshift': 'npIfftshiftBy'}
+        for fname, want in (('focus', 'fft2'), ('unfocus', 'ifft2')):
+            fn = get_def(pr, fname)
+            chains = []
+            for c in ast.walk(fn):
+                if isinstance(c, ast.Call) and last_attr(c.func) in by and len(c.args) == 1 and isinstance(c.args[0], ast.Call) \
+                        and last_attr(c.args[0].func) in ('fft2', 'ifft2', 'fftn', 'ifftn'):
+                    mid = c.args[0]
+                    if mid.args and isinstance(mid.args[0], ast.Call) and last_attr(mid.args[0].func) in by \
+                            and len(mid.args[0].args) == 1:
+                        chains.append((last_attr(mid.args[0].func), last_attr(mid.func), last_attr(c.func)))
+            if len(chains) != 1 or chains[0][1].replace('n', '2') != want:
+                raise Untranslatable(f'{fname}: shift(fft(shift(x))) chain not found')
+            pre, _, post = chains[0]
+            out.append(f'def {fname}Pre (dim : Int) : Int := {by[pre]} dim\ndef {fname}Post (dim : Int) : Int := {by[post]} dim')
+        return '\n'.join(out)
+    g.item('focus.shifts', 'prysm/propagation.py:focus,unfocus', lambda: get_def(pr, 'focus'), fft_route,
+           '\n'.join(f'def {f}Pre (dim : Int) : Int := {M}.npIfftshiftBy dim\ndef {f}Post (dim : Int) : Int := {M}.npFftshiftBy dim'
+                     for f in ('focus', 'unfocus')))
+
+    # ---- RichData.x / .y getters: which return value of make_xy_grid((m, n), dx=dx) is cached and handed out
+    def rich_xy():
+        out = []
+        mk = get_def(co, 'make_xy_grid')
+        for prop, lean in (('x', 'richX'), ('y', 'richY')):
+            getters = [n for n in get_def(rd, 'RichData').body if isinstance(n, ast.FunctionDef) and n.name == prop
+                       and any(ast.unparse(d) == 'property' for d in n.decorator_list)]
+            (fn,) = getters
+            (call,) = [c for c in ast.walk(fn) if isinstance(c, ast.Call) and last_attr(c.func) == 'make_xy_grid']
+            b = bind_call(call, mk)
+            if ast.unparse(b['shape']) not in ('self.data.shape', 'self.shape') or ast.unparse(b.get('dx')) != 'self.dx' \
+                    or set(b) - {'shape', 'dx'}:
+                raise Untranslatable('make_xy_grid arguments in RichData getter')
+            (asg,) = [s for s in ast.walk(fn) if isinstance(s, ast.Assign) and s.value is call]
+            tg = [ast.unparse(t) for t in asg.targets[0].elts]
+            (ret,) = find_returns(fn)
+            k = tg.index(ast.unparse(ret))
+            out.append(f'def {lean} (m n : Int) (dx : Rat) (i j : Int) : Rat := {("gridX", "gridY")[k]} m n dx i j')
+        return '\n'.join(out)
+    g.item('RichData.x,y', 'prysm/_richdata.py:RichData.x', lambda: get_def(rd, 'RichData.x'), rich_xy,
+           'def richX (m n : Int) (dx : Rat) (i j : Int) : Rat := gridX m n dx i j\n'
+           'def richY (m n : Int) (dx : Rat) (i j : Int) : Rat := gridY m n dx i j')
+
+    # ---- RichData.slices: the vectors handed to Slices(x=, y=)
+    def rich_slices():
+        fn = get_def(rd, 'RichData.slices')
+        ctor = get_def(rd, 'Slices.__init__')
+        state = {}
         for st in fn.body:
-            if isinstance(st, ast.Assign) and ast.unparse(st.targets[0]) == '(self.center_y, self.center_x)':
-                return ast.unparse(st.value) in ('(np.argmin(abs(y)), np.argmin(abs(x)))',)
-        return False
-    g.fact('slicesCentreIsArgminAbs', 'prysm/_richdata.py:Slices.__init__', slices)
+            if isinstance(st, ast.Assign) and isinstance(st.targets[0], ast.Tuple) and isinstance(st.value, ast.Tuple):
+                for t, v in zip(st.targets[0].elts, st.value.elts):
+                    state[ast.unparse(t)] = {'self.x': ('grid', 'X'), 'self.y': ('grid', 'Y')}.get(ast.unparse(v))
+            elif isinstance(st, ast.Assign) and isinstance(st.targets[0], ast.Name):
+                v = st.value
+                if ast.unparse(v) in ('self.x', 'self.y'):
+                    state[st.targets[0].id] = ('grid', ast.unparse(v)[-1].upper())
+                elif isinstance(v, ast.Subscript) and state.get(ast.unparse(v.value), (None,))[0] == 'grid':
+                    a, b_ = index_term(v, {}, free='k')
+                    state[st.targets[0].id] = ('vec', f'{state[ast.unparse(v.value)][1]} {a} {b_}')
+        (call,) = [c for c in ast.walk(fn) if isinstance(c, ast.Call) and last_attr(c.func) == 'Slices']
+        b = bind_call(call, ctor, skip_self=True)
+        if ast.unparse(b['data']) != 'self.data':
+            raise Untranslatable('Slices(data=...) is not self.data')
+        out = []
+        for p, lean in (('x', 'slicesXVec'), ('y', 'slicesYVec')):
+            s = state.get(ast.unparse(b[p]))
+            if not s or s[0] != 'vec':
+                raise Untranslatable(f'Slices({p}=...) is not a vector cut out of a grid')
+            out.append(f'def {lean} (X Y : Int → Int → Rat) (k : Int) : Rat := {s[1]}')
+        return '\n'.join(out)
+    g.item('RichData.slices', 'prysm/_richdata.py:RichData.slices', lambda: get_def(rd, 'RichData.slices'), rich_slices,
+           f'def slicesXVec (X Y : Int → Int → Rat) (k : Int) : Rat := {M}.slicesXVec X k\n'
+           f'def slicesYVec (X Y : Int → Int → Rat) (k : Int) : Rat := {M}.slicesYVec Y k')
 
-    def wf_pad():
-        fn = get_def(pr, 'Wavefront.pad2d')
-        (c,) = find_calls(fn, 'pad2d')
-        return ast.unparse(c) == 'pad2d(self.data, Q=Q, value=value, mode=mode, out_shape=out_shape)'
-    g.fact('wavefrontPadDelegates', 'prysm/propagation.py:Wavefront.pad2d', wf_pad)
+    # ---- Slices.__init__: centre indices
+    def slices_centre():
+        fn = get_def(rd, 'Slices.__init__')
+        alias = {'x': 'x', 'y': 'y'}
+        for st in fn.body:
+            if isinstance(st, ast.Assign) and ast.unparse(st.targets[0]) in ('self._x', 'self._y') \
+                    and ast.unparse(st.value) in ('x', 'y'):
+                alias[ast.unparse(st.targets[0])] = ast.unparse(st.value)
+                if ast.unparse(st.targets[0])[-1] != ast.unparse(st.value):
+                    raise Untranslatable('self._x / self._y crossed')     # handled by the harness
+        vals = {}
+        shape_env = {'data.shape[0]': 'm', 'data.shape[1]': 'n', 'self._source.shape[0]': 'm', 'self._source.shape[1]': 'n'}
 
-    def wf_crop():
-        fn = get_def(pr, 'Wavefront.crop')
-        (c,) = find_calls(fn, 'crop_center')
-        return ast.unparse(c) == 'crop_center(self.data, out_shape)'
-    g.fact('wavefrontCropDelegates', 'prysm/propagation.py:Wavefront.crop', wf_crop)
+        def one(v):
+            name = argmin_abs_of(v, set(alias))
+            if name is not None:
+                w = alias[name]
+                return f'am {w}v {"n" if w == "x" else "m"}'
+            return Tr(shape_env).expr(v)
+        for st in fn.body:
+            if not isinstance(st, ast.Assign):
+                continue
+            tg = st.targets[0]
+            names = [ast.unparse(t) for t in tg.elts] if isinstance(tg, ast.Tuple) else [ast.unparse(tg)]
+            if not set(names) & {'self.center_x', 'self.center_y'}:
+                continue
+            if isinstance(tg, ast.Tuple):
+                if isinstance(st.value, ast.Tuple):
+                    terms = [one(v) for v in st.value.elts]
+                else:
+                    elt, binds = comp_parts(st.value)
+                    (var, src), = binds.items()
+                    if src not in ('data.shape', 'self._source.shape'):
+                        raise Untranslatable('centre comprehension source')
+                    terms = [Tr({var: ln}).expr(elt) for ln in ('m', 'n')]
+                for nm, t in zip(names, terms):
+                    vals[nm] = t
+            else:
+                vals[names[0]] = one(st.value)
+        if set(vals) != {'self.center_x', 'self.center_y'}:
+            raise Untranslatable('centre assignment not found')
+        sig = '(am : (Int → Rat) → Int → Int) (m n : Int) (xv yv : Int → Rat) : Int'
+        return (f'def slicesCentreY {sig} := {vals["self.center_y"]}\n'
+                f'def slicesCentreX {sig} := {vals["self.center_x"]}')
+    g.item('Slices.centre', 'prysm/_richdata.py:Slices.__init__', lambda: get_def(rd, 'Slices.__init__'), slices_centre,
+           f'def slicesCentreY (am : (Int → Rat) → Int → Int) (m n : Int) (xv yv : Int → Rat) : Int := {M}.slicesCentreY am m n xv yv\n'
+           f'def slicesCentreX (am : (Int → Rat) → Int → Int) (m n : Int) (xv yv : Int → Rat) : Int := {M}.slicesCentreX am m n xv yv')
+
+    # ---- Slices.x / Slices.y: what is cut out of the data and of the coordinate vectors
+    def slices_cut():
+        out = []
+        fixed = {'self.center_y': 'cy', 'self.center_x': 'cx'}
+        for prop, L in (('x', 'X'), ('y', 'Y')):
+            (fn,) = [n for n in get_def(rd, 'Slices').body if isinstance(n, ast.FunctionDef) and n.name == prop]
+            two, one = branch_on(fn, ('self.twosided',))
+            for stmts, tag in ((two, 'Two'), (one, 'One')):
+                r = the_return(stmts)
+                if not (isinstance(r, ast.Tuple) and len(r.elts) == 2):
+                    raise Untranslatable('Slices property does not return (coords, values)')
+                c, d = r.elts
+                if isinstance(c, ast.Attribute) and ast.unparse(c) in ('self._x', 'self._y'):
+                    cterm = f'{ast.unparse(c)[-1]}v k'
+                elif isinstance(c, ast.Subscript) and ast.unparse(c.value) in ('self._x', 'self._y'):
+                    (ix,) = index_term(c, fixed, ndim=1)
+                    cterm = f'{ast.unparse(c.value)[-1]}v {ix}'
+                else:
+                    raise Untranslatable(f'coordinate part {ast.unparse(c)}')
+                if not (isinstance(d, ast.Subscript) and ast.unparse(d.value) == 'self._source'):
+                    raise Untranslatable(f'data part {ast.unparse(d)}')
+                a, b_ = index_term(d, fixed)
+                out.append(f'def slice{L}{tag} {{α : Type}} (src : Int → Int → α) (cy cx : Int) (k : Int) : α := src {a} {b_}')
+                out.append(f'def slice{L}{tag}Coord (xv yv : Int → Rat) (cy cx : Int) (k : Int) : Rat := {cterm}')
+        return '\n'.join(out)
+    g.item('Slices.x,y', 'prysm/_richdata.py:Slices.x', lambda: get_def(rd, 'Slices'), slices_cut,
+           '\n'.join(f'def slice{L}{tag} {{α : Type}} (src : Int → Int → α) (cy cx : Int) (k : Int) : α := {M}.slice{L}{tag} src cy cx k\n'
+                     f'def slice{L}{tag}Coord (xv yv : Int → Rat) (cy cx : Int) (k : Int) : Rat := '
+                     + ({'XTwo': 'xv k', 'YTwo': 'yv k', 'XOne': f'{M}.sliceXOneCoord xv cx k', 'YOne': f'{M}.sliceYOneCoord yv cy k'}[L + tag])
+                     for L in 'XY' for tag in ('Two', 'One')))
+
+    # ---- Wavefront.pad2d / crop delegate to the fttools functions with every parameter bound to its namesake
+    def delegates(method, callee, want):
+        def check():
+            fn = get_def(pr, f'Wavefront.{method}')
+            calls = find_calls(fn, callee)
+            if len(calls) != 1:
+                return None
+            got = {k: ast.unparse(v) for k, v in bind_call(calls[0], get_def(ft, callee)).items()}
+            if set(got) - set(want):
+                return None
+            names = set(want.values())
+            for k in want:
+                if k not in got:
+                    return False          # the caller's argument is dropped (the callee's default is used instead)
+                if got[k] != want[k]:
+                    return False if got[k] in names else None   # bound to a different argument: wrong; other expression: unknown
+            # the result must become self.data (inplace) and the data of the returned Wavefront
+            res = [ast.unparse(s.targets[0]) for s in ast.walk(fn) if isinstance(s, ast.Assign) and s.value is calls[0]]
+            stores = [s for s in ast.walk(fn) if isinstance(s, ast.Assign) and ast.unparse(s.targets[0]) == 'self.data']
+            if len(res) != 1 or not stores:
+                return None
+            return all(ast.unparse(s.value) == res[0] for s in stores)
+        return check
+    g.fact('wavefrontPadDelegates', 'prysm/propagation.py:Wavefront.pad2d',
+           delegates('pad2d', 'pad2d', {'array': 'self.data', 'Q': 'Q', 'value': 'value', 'mode': 'mode', 'out_shape': 'out_shape'}))
+    g.fact('wavefrontCropDelegates', 'prysm/propagation.py:Wavefront.crop',
+           delegates('crop', 'crop_center', {'img': 'self.data', 'out_shape': 'out_shape'}))
 
     return g.finish()
 
